@@ -1,6 +1,6 @@
 """Source of MANIFEST.json (run ./tools_manifest.py after editing)."""
 
-FIX_COMMITS = ['aa8a796', 'e19c32a', '9330350', '8599158', '33efd15', '1cc24ab', '668079e', 'f34decb', 'f0c9eb4', 'f63685a', 'f41aea7', '4c9fae6', '89fa7aa', '44add83', '3e6a5c9', '24d79b7', '9b58b2c', '783304e', 'f6c2ece', '8bd765a', 'debc858', '096bb2b', '9bcdd72', 'af4b9f6', 'cef733f', 'a117c80', 'b164430', '2fdc9c3', '1f4ac19', '0565888']
+FIX_COMMITS = ['aa8a796', 'e19c32a', '9330350', '8599158', '33efd15', '1cc24ab', '668079e', 'f34decb', 'f0c9eb4', 'f63685a', 'f41aea7', '4c9fae6', '89fa7aa', '44add83', '3e6a5c9', '24d79b7', '9b58b2c', '783304e', 'f6c2ece', '8bd765a', 'debc858', '096bb2b', '9bcdd72', 'af4b9f6', 'cef733f', 'a117c80', 'b164430', '2fdc9c3', '1f4ac19', '0565888', '7625e32', '6c98e8e', '87aecdb']
 
 _ALL = ['C%02d' % i for i in range(1, 21)]
 
@@ -250,6 +250,21 @@ CHECKS.append(dict(
     note='Rows of an individual are identified by reading Database.data back after panel(); draws are affine functions of '
          '(individual position, draw index); a draw variable inside a logit availability is a listed known finding.',
     technique='property-based testing (Hypothesis): reference product/average oracle per individual, permutation metamorphic relation, refusal of interleaved ids',
+))
+
+CHECKS.append(dict(
+    id='C15',
+    level='fault_enumeration',
+    text='Generated histories of 1-8 (thorough 15) likelihood+derivative evaluations (improving, worsening, repeated, adversarial '
+         'floats, optional pole giving non-finite derivatives) with save_iterations on: after every call the iteration file must be '
+         'one complete line per free parameter holding, bit for bit, the best finite evaluation so far; a later estimation of the '
+         'same model must start from the saved values and not below them. Then the history is re-run once per harness-visible step '
+         'of every save (open/truncate, each write, close, rename) with the process stopped (os._exit) at that step: the file must '
+         'be absent or complete-and-valid and a restart must succeed. All crash points of every save are enumerated (capped at 60 '
+         'per history in the quick tier).',
+    note='Crash points at Python granularity inside the saving code (module-level open / os.replace wrapped from the harness, no '
+         'source hook); power-loss semantics below write(2) are not modelled. Three defects found were repaired (fix: commits).',
+    technique='property-based testing (Hypothesis) of evaluation histories against a best-so-far model + exhaustive fault injection at every step of every save',
 ))
 
 _claimed = {c['id'] for c in CHECKS}
